@@ -76,6 +76,18 @@ prop("C10", level="exploration",
      stages=[dict(name="limits", driver="c10_limits", flagset="asan", quick=6000, thorough=400000),
              dict(name="stack", driver="c10_stack", flagset="plain", quick=600, thorough=20000)])
 
+prop("C18", level="exploration",
+     level_text="CSV: generated tables (cells: strings with delimiter/quote/escape characters, CR/LF, leading/trailing spaces, empty, number/boolean/null look-alikes, non-ASCII; integers, doubles, booleans, nulls) as arrays-of-"
+                "arrays, arrays-of-objects and column-oriented objects x field_delimiter {, ; tab |} x quote_char {\" '} x quote_escape_char {same, backslash} x line_delimiter {LF, CRLF} x all four quote styles x infer_types; "
+                "an independent field scanner re-reads the emitted text (record/field counts, header names and every string field must be recoverable => fields containing delimiter, quote or line break were quoted) and, under "
+                "the property's precondition, decode_csv must return the same table (strict compare). TOON: decode_toon(encode_toon(v, o)) == v (numbers compared exactly by value) for json and ojson x indent 1-8 x "
+                "delimiter kinds x length marker, including arrays of uniform objects. ASan+UBSan.",
+     level_note="Sampled. Quote style none is an explicit opt-out: only safety is checked. TOON has 12 open known findings (6 defects) on the unchanged tree, see known_findings.json; any other TOON/CSV mismatch is a violation.",
+     technique="runtime monitoring: in-process round-trip monitor with an independent CSV field scanner and strict structural oracle; value shrinking for witnesses; ASan/UBSan",
+     rule="case = generated (table, options) or (value, TOON options); distinct = distinct case index (CSV) / distinct value description (TOON); non-trivial = container with >= 1 element or non-empty string",
+     assumptions=["CSV field scanner in drivers/c18_csv_toon.cpp implements RFC 4180 quoting with configurable quote/escape characters"],
+     stages=[dict(name="csvtoon", driver="c18_csv_toon", flagset="asan", quick=150000, thorough=6000000)])
+
 prop("C19", level="fault_enumeration",
      level_text="Fault enumeration: global operator new is replaced by a counting fail-point. For each of 19 scenarios (parse from string/stream, decode CBOR/MessagePack/UBJSON/BSON, deep copy, copy-assign "
                 "json and ojson over existing values, insertion with reallocation, merge, apply_patch, from_diff (patch and merge patch), json_query, jmespath search, schema compile+validate, dump/dump_pretty/"
